@@ -258,6 +258,21 @@ Theorem C16_mw_refines_fc :
 Proof. exact mw_refines_fc. Qed.
 Print Assumptions C16_mw_refines_fc.
 
+(* REFUTED VARIANT.  With the test outside the critical section (lock taken only around stream.Write) k writers
+   that all test before any of them writes buffer k x 128 KiB -- no drain, no token, nothing written past flow
+   control -- so no bound independent of the number of writers holds: the mutual exclusion of check-and-write is
+   what C16_mw_buffered_bounded rests on.  (Two writers already exceed 384 KiB: Examples.ex_unl_two_writers_exceed.) *)
+Theorem C16_mw_unlocked_variant_grows :
+  forall k, let st := mw_run VUnlocked mw_init (unl_schedule k) in
+    mbuf st = N.of_nat k * wthr /\ mforeign st = 0 /\ mtaken st = false.
+Proof. exact mw_unlocked_grows. Qed.
+Print Assumptions C16_mw_unlocked_variant_grows.
+
+Theorem C16_mw_unlocked_variant_unbounded :
+  forall B, exists ops, let st := mw_run VUnlocked mw_init ops in B < mbuf st /\ mforeign st = 0.
+Proof. exact mw_unlocked_unbounded. Qed.
+Print Assumptions C16_mw_unlocked_variant_unbounded.
+
 (* ------------------------------------------------------------------ *)
 (* (iv) listener registry: any number of acceptor and connection       *)
 (*      threads, every schedule, cancellation at any step              *)
